@@ -27,7 +27,8 @@ def run(tier):
     c.rule = ("base64: every byte string of length 0..1, a dense grid of length 2 (thorough: all), 3k-65k of length 3, random "
               "longer, both alphabets interleaved in one process, encode = RFC 4648 and decode(encode) = identity; decode: "
               "every text of length 0..5 over a 6-8 symbol reduced alphabet (valid, pad, other-alphabet, invalid) and 8-symbol "
-              "texts with every 5-symbol head / tail, single-symbol corruptions at every position, alphabets alternating; "
+              "texts with every 5-symbol head / tail, single-symbol corruptions at every position, all 256 byte values at every position of five "
+              "valid groups, alphabets alternating; "
               "rot13 and the three escapers on every single byte, the full byte table and random strings; netloc on 60 hosts "
               "x ports; distinct = (function, alphabet, flag) batches")
     c.assumptions = ["escape_quotes: 'no raw quote' is read as 'every quote is directly preceded by a backslash'",
